@@ -185,13 +185,23 @@ pub fn run_case(ctx: &mut Ctx, fam: &str, k: u64, r: &mut Rng) {
             };
             let n2 = numel(&d2);
             let mut v2: Vec<f64> = if n2 == n { v.clone() } else { (0..n2).map(|i| v[i % n]).collect() };
+            // a difference of one unit in the last place (or the smallest subnormal next to zero) is a difference
+            let mut ulp_at: Option<usize> = None;
             if !same_vals {
                 let j = r.below(n2);
-                v2[j] += 1.0;
+                if r.chance(1, 2) {
+                    ulp_at = Some(j);
+                } else {
+                    v2[j] += 1.0;
+                }
             }
-            let expect = d == d2 && v == v2;
-            let mk = |dims: &[usize], vals_: &[f64], state: usize| -> Array {
-                let a = arr(dims, vals_);
+            let expect = d == d2 && v == v2 && ulp_at.is_none();
+            let mk = |dims: &[usize], vals_: &[f64], state: usize, bump: Option<usize>| -> Array {
+                let mut fv = tf(vals_);
+                if let Some(j) = bump {
+                    fv[j] = Float::from_bits(fv[j].to_bits() + 1);
+                }
+                let a = Array::from((dims.to_vec(), fv));
                 match state {
                     0 => a,
                     1 => a.tracked(),
@@ -238,11 +248,11 @@ pub fn run_case(ctx: &mut Ctx, fam: &str, k: u64, r: &mut Rng) {
             let (s1, s2) = (r.below(5), r.below(5));
             ctx.case(&format!("equality|{}{}|{}{}", same_dims as u8, same_vals as u8, s1, s2), true);
             ctx.count("equality_cells", 1);
-            ctx.hist("equality_table", &format!("dims-{} values-{} states-{}{}", if d == d2 { "eq" } else { "ne" }, if v == v2 { "eq" } else { "ne" }, s1, s2));
+            ctx.hist("equality_table", &format!("dims-{} values-{} states-{}{}", if d == d2 { "eq" } else { "ne" }, if ulp_at.is_some() { "one-ulp-apart" } else if v == v2 { "eq" } else { "ne" }, s1, s2));
             ctx.sample(&format!("eq{}", expect), || format!("Array{:?}{} (state {}) == Array{:?}{} (state {}) expect {}", d, short(&v), s1, d2, short(&v2), s2, expect));
             match guard(|| {
-                let a = mk(&d, &v, s1);
-                let b = mk(&d2, &v2, s2);
+                let a = mk(&d, &v, s1, None);
+                let b = mk(&d2, &v2, s2, ulp_at);
                 (a == b, b == a, a != b)
             }) {
                 Ok((e1, e2, ne)) => {
